@@ -73,6 +73,15 @@ impl<'b> Machine<'b> {
                         match how {
                             0 => BVec::new_in(bump),
                             1 => BVec::with_capacity_in(k + (b as usize >> 4), bump),
+                            // one in four: the iterator's size_hint is loose or plainly wrong (hint_for)
+                            2 if c & 0xC0 == 0xC0 => {
+                                let (lo, hi) = crate::vec_eng::hint_for(c >> 2, k);
+                                BVec::from_iter_in(crate::vec_eng::Hinted { it: xs.iter().map(|&x| <$A>::make(x)), lo, hi }, bump)
+                            }
+                            3 if c & 0xC0 == 0xC0 => {
+                                let (lo, hi) = crate::vec_eng::hint_for(c >> 2, k);
+                                crate::vec_eng::Hinted { it: xs.iter().map(|&x| <$A>::make(x)), lo, hi }.collect_in::<BVec<'b, $A>>(bump)
+                            }
                             2 => BVec::from_iter_in(xs.iter().map(|&x| <$A>::make(x)), bump),
                             3 => xs.iter().map(|&x| <$A>::make(x)).collect_in::<BVec<'b, $A>>(bump),
                             // FromIteratorIn for Option<V> / Result<V, E>: all Some / all Ok collects, the first None / Err stops
